@@ -297,6 +297,15 @@ class Sym:
         copies of a `?` give `r` several definitions)"""
         if t[0] == "field" and t[2] == 0:
             d = strip(t[1])
+            if d[0] == "downcast" and d[2] in ("Some", "Ok"):
+                m_ = strip(d[1])
+                if m_[0] == "call" and short(m_[1]) in ("Option::<T>::map", "Result::<T, E>::map") and len(m_[2]) == 2:
+                    # the payload of `opt.map(f)` is f(payload of opt)
+                    from .terms import apply_closure
+                    cl_ = strip(m_[2][1])
+                    ap_ = apply_closure(self.prog, cl_, (("field", ("downcast", m_[2][0], d[2]), 0),)) if cl_[0] == "aggr" else None
+                    if ap_ is not None:
+                        return strip(ap_)
             if d[0] == "downcast" and d[2] == "Continue":
                 v = strip(d[1])
                 if v[0] == "var" and self.path_blocks is not None:
@@ -1992,6 +2001,9 @@ class Sym:
                         return [("some" if cont else "none", self.name(x), x)]      # `opt?`
                     return [("ok" if cont else "err", self.name(x), x)]
             tyname = self.enum_of(ds[1])
+            # `opt.map(f)` / `res.map(f)` has the variant of its receiver
+            while inner[0] == "call" and short(inner[1]) in ("Option::<T>::map", "Result::<T, E>::map") and len(inner[2]) == 2:
+                inner = strip(inner[2][0])
             if tyname and (tyname.startswith("std::option::Option") or tyname.startswith("core::option::Option")):
                 some = (rel == "in" and vs == [1]) or (rel == "notin" and vs == [0])
                 none = (rel == "in" and vs == [0]) or (rel == "notin" and vs == [1])
